@@ -484,3 +484,90 @@ def replay(world, prop, path, verbose=True):
         body = json.load(f)
     res = run_forked(world, body["program"], verbose=verbose)
     return body, res
+
+
+# --------------------------------------------------------------------------
+#  second generator: Hypothesis drives the same world.gen through st.randoms()
+# --------------------------------------------------------------------------
+def _hyp_worker(world, prop, seed, tier, w, n, wfd):
+    out = {"examples": 0, "found": []}
+    try:
+        import hypothesis
+        from hypothesis import given, settings, strategies as st, HealthCheck
+        state = {"last_fail": None}
+
+        @hypothesis.seed(run_seed(prop, seed, 10 ** 6 + w) % (2 ** 32))
+        @settings(max_examples=n, database=None, deadline=None, derandomize=False, report_multiple_bugs=False,
+                  suppress_health_check=list(HealthCheck), print_blob=False)
+        @given(st.randoms(use_true_random=False))
+        def test(rnd):
+            if state["last_fail"] is not None:
+                # shrinking phase: bounded, the driver's own ddmin continues from the smallest real failure
+                state["shrink_left"] = state.get("shrink_left", 120) - 1
+                if state["shrink_left"] < 0:
+                    raise AssertionError("shrink budget exhausted")
+            program = world.gen(rnd, tier)
+            res = run_forked(world, program)
+            out["examples"] += 1
+            if res["ok"] is False:
+                prev = state["last_fail"]
+                size = len(json.dumps(program))
+                if prev is None or (res["oracle"] == prev["oracle"] and size <= prev["size"]):
+                    state["last_fail"] = {"k": -2 - w, "variant": 0, "program": program, "oracle": res["oracle"], "msg": res["msg"],
+                                          "size": size}
+                raise AssertionError(res["oracle"])
+        try:
+            test()
+        except AssertionError:
+            # the last failing example hypothesis executed is its shrunk one
+            if state["last_fail"] is not None:
+                out["found"].append(state["last_fail"])
+        except BaseException as e:   # hypothesis internal errors are harness noise, never violations
+            out["error"] = "%s: %s" % (type(e).__name__, str(e)[:300])
+            if state["last_fail"] is not None:
+                out["found"].append(state["last_fail"])
+    except BaseException as e:
+        out["error"] = "%s: %s" % (type(e).__name__, str(e)[:300])
+    data = json.dumps(out).encode()
+    off = 0
+    while off < len(data):
+        off += os.write(wfd, data[off:off + 65536])
+    os.close(wfd)
+    os._exit(0)
+
+
+def hypothesis_leg(world, prop, seed, tier, nexamples, workers):
+    t0 = time.monotonic()
+    W = max(1, min(workers, nexamples // 10 or 1))
+    per = max(1, nexamples // W)
+    pipes = []
+    sys.stdout.flush()
+    for w in range(W):
+        rfd, wfd = os.pipe()
+        pid = os.fork()
+        if pid == 0:
+            os.close(rfd)
+            _hyp_worker(world, prop, seed, tier, w, per, wfd)
+            os._exit(0)
+        os.close(wfd)
+        pipes.append((rfd, pid))
+    res = {"examples": 0, "failures": 0, "found": [], "errors": []}
+    for rfd, pid in pipes:
+        chunks = []
+        while True:
+            b = os.read(rfd, 1 << 20)
+            if not b:
+                break
+            chunks.append(b)
+        os.close(rfd)
+        os.waitpid(pid, 0)
+        if chunks:
+            o = json.loads(b"".join(chunks).decode())
+            res["examples"] += o.get("examples", 0)
+            res["found"].extend(o.get("found", []))
+            if o.get("error"):
+                res["errors"].append(o["error"])
+    res["failures"] = len(res["found"])
+    res["seconds"] = round(time.monotonic() - t0, 1)
+    res["errors"] = res["errors"][:3]
+    return res
